@@ -872,7 +872,7 @@ fn token_text_cases() -> Vec<Vec<u8>> {
 
 pub fn run(ctx: &Ctx) -> i32 {
     let mut total = Report::new();
-    let cfg = util::ForkCfg { threads: ctx.threads, mem_bytes: 4 << 30, case_timeout_s: 30, died_signature: "C14/abort".into() };
+    let cfg = util::ForkCfg { threads: ctx.threads, mem_bytes: 4 << 30, case_timeout_s: 30, died_signature: "C14/abort".into(), resource_is_violation: false };
     let maxlen = if ctx.quick() { 4 } else { 5 };
     for len in 0..=maxlen {
         let shards = if len >= 4 { 256 } else { 16 };
